@@ -250,6 +250,7 @@ func c16Matrix(c *engine.Ctx) {
 		{"bases[b1,b2]", drv.Config{Kind: drv.Mem, HostBases: []string{"b1.test", "b2.example"}}, []string{"b1.test", "b2.example"}},
 		{"bases[b1:port]", drv.Config{Kind: drv.Mem, HostBases: []string{"b1.test:9000"}}, []string{"b1.test:9000"}},
 		{"bases[B1.Test]", drv.Config{Kind: drv.Mem, HostBases: []string{"B1.Test"}}, []string{"B1.Test"}},
+		{"bases[b2]-replaced-by-bases[b1]", drv.Config{Kind: drv.Mem, HostBasesFirst: []string{"b2.example"}, HostBases: []string{"b1.test"}}, []string{"b1.test"}},
 		{"bases[.b1.]", drv.Config{Kind: drv.Mem, HostBases: []string{".b1.test."}}, []string{"b1.test"}},
 		{"bases[test,b1.test]", drv.Config{Kind: drv.Mem, HostBases: []string{"test", "b1.test"}}, []string{"test", "b1.test"}},
 		{"bases[b1.test,test]", drv.Config{Kind: drv.Mem, HostBases: []string{"b1.test", "test"}}, []string{"b1.test", "test"}},
